@@ -327,16 +327,43 @@ func (m *Machine) installExterns() {
 	}
 	// time
 	ex["time.Now"] = func(m *Machine, a []value, site ssa.Instruction) value { return m.now }
-	ex["(time.Time).Local"] = func(m *Machine, a []value, site ssa.Instruction) value { return a[0].(time.Time).Local() }
-	ex["(time.Time).Year"] = func(m *Machine, a []value, site ssa.Instruction) value { return int64(a[0].(time.Time).Year()) }
-	ex["(time.Time).Month"] = func(m *Machine, a []value, site ssa.Instruction) value { return int64(a[0].(time.Time).Month()) }
-	ex["(time.Time).Day"] = func(m *Machine, a []value, site ssa.Instruction) value { return int64(a[0].(time.Time).Day()) }
-	ex["(time.Time).Hour"] = func(m *Machine, a []value, site ssa.Instruction) value { return int64(a[0].(time.Time).Hour()) }
-	ex["(time.Time).Minute"] = func(m *Machine, a []value, site ssa.Instruction) value {
-		return int64(a[0].(time.Time).Minute())
+	ex["(time.Time).Local"] = func(m *Machine, a []value, site ssa.Instruction) value {
+		if t, ok := a[0].(time.Time); ok {
+			return t.Local()
+		}
+		return a[0]
 	}
-	ex["(time.Time).Second"] = func(m *Machine, a []value, site ssa.Instruction) value {
-		return int64(a[0].(time.Time).Second())
+	// time.Date with symbolic fields: TimeV (see timeDate); native time.Time values (time.Now) keep the host's answers
+	ex["time.Date"] = func(m *Machine, a []value, site ssa.Instruction) value { return m.timeDate(a) }
+	field := func(name string, nat func(t time.Time) int, sym func(t *TimeV) value) {
+		ex["(time.Time)."+name] = func(m *Machine, a []value, site ssa.Instruction) value {
+			switch t := a[0].(type) {
+			case time.Time:
+				return int64(nat(t))
+			case *TimeV:
+				return sym(t)
+			}
+			panic(unsupported("time.Time." + name + " on an unmodelled value"))
+		}
+	}
+	field("Year", func(t time.Time) int { return t.Year() }, func(t *TimeV) value { return t.y })
+	field("Month", func(t time.Time) int { return int(t.Month()) }, func(t *TimeV) value { return t.mo })
+	field("Day", func(t time.Time) int { return t.Day() }, func(t *TimeV) value { return t.d })
+	field("Hour", func(t time.Time) int { return t.Hour() }, func(t *TimeV) value { return t.h })
+	field("Minute", func(t time.Time) int { return t.Minute() }, func(t *TimeV) value { return t.mi })
+	field("Second", func(t time.Time) int { return t.Second() }, func(t *TimeV) value { return t.s })
+	ex["(time.Time).Format"] = func(m *Machine, a []value, site ssa.Instruction) value {
+		layout, ok := a[1].(string)
+		if !ok {
+			panic(unsupported("time.Time.Format with a symbolic layout"))
+		}
+		switch t := a[0].(type) {
+		case time.Time:
+			return t.Format(layout)
+		case *TimeV:
+			return m.timeFormat(t, layout)
+		}
+		panic(unsupported("time.Time.Format on an unmodelled value"))
 	}
 }
 
@@ -358,3 +385,91 @@ func (m *Machine) lookupExtern(fn *ssa.Function) (externFn, bool) {
 var _ = math.Pi
 var _ = strings.Compare
 var _ = types.Typ
+
+// TimeV: the result of time.Date(y, mo, d, h, mi, s, 0, loc) with possibly symbolic fields, AFTER Go's normalisation.
+// Modelled for fields inside their usual ranges (month 1..12, day 1..31, hour 0..23, minute / second 0..59, nsec 0):
+// the only normalisation left is a day beyond the length of its month in the PROLEPTIC GREGORIAN calendar, which Go
+// carries into the next month (e.g. 29 February of a year that is a leap year only in the Julian calendar).
+type TimeV struct{ y, mo, d, h, mi, s value }
+
+func (m *Machine) timeDate(a []value) value {
+	tb := m.tb
+	term := func(v value) *Term {
+		switch x := v.(type) {
+		case int64:
+			return tb.Int(x)
+		case *Term:
+			return x
+		}
+		panic(unsupported("time.Date argument"))
+	}
+	inRange := func(v value, lo, hi int64) {
+		t := term(v)
+		if t.lo < lo || t.hi > hi {
+			panic(unsupported("time.Date with a field outside its usual range (normalisation not modelled)"))
+		}
+	}
+	if ns, ok := a[6].(int64); !ok || ns != 0 {
+		panic(unsupported("time.Date with nanoseconds"))
+	}
+	inRange(a[1], 1, 12)
+	inRange(a[2], 1, 31)
+	inRange(a[3], 0, 23)
+	inRange(a[4], 0, 59)
+	inRange(a[5], 0, 59)
+	y, mo, d := term(a[0]), term(a[1]), term(a[2])
+	if y.lo < 1 || y.hi > 9999 {
+		panic(unsupported("time.Date with a year outside 1..9999"))
+	}
+	// proleptic Gregorian month length
+	leap := tb.And(tb.Eq(tb.Rem(y, tb.Int(4)), tb.Int(0)), tb.Or(tb.Not(tb.Eq(tb.Rem(y, tb.Int(100)), tb.Int(0))), tb.Eq(tb.Rem(y, tb.Int(400)), tb.Int(0))))
+	feb := tb.Ite(leap, tb.Int(29), tb.Int(28))
+	short := tb.Or(tb.Eq(mo, tb.Int(4)), tb.Eq(mo, tb.Int(6)), tb.Eq(mo, tb.Int(9)), tb.Eq(mo, tb.Int(11)))
+	ln := tb.Ite(tb.Eq(mo, tb.Int(2)), feb, tb.Ite(short, tb.Int(30), tb.Int(31)))
+	over := tb.Lt(ln, d)
+	// December has 31 days, so an overflow never changes the year
+	nmo := tb.Ite(over, tb.Add(mo, tb.Int(1)), mo)
+	nd := tb.Ite(over, tb.Sub(d, ln), d)
+	return &TimeV{y: m.simp(y), mo: m.simp(nmo), d: m.simp(nd), h: a[3], mi: a[4], s: a[5]}
+}
+
+func (m *Machine) timeFormat(t *TimeV, layout string) value {
+	format := ""
+	var args []value
+	for i := 0; i < len(layout); {
+		switch {
+		case strings.HasPrefix(layout[i:], "2006"):
+			format += "%04d"
+			args = append(args, t.y)
+			i += 4
+		case strings.HasPrefix(layout[i:], "01"):
+			format += "%02d"
+			args = append(args, t.mo)
+			i += 2
+		case strings.HasPrefix(layout[i:], "02"):
+			format += "%02d"
+			args = append(args, t.d)
+			i += 2
+		case strings.HasPrefix(layout[i:], "15"):
+			format += "%02d"
+			args = append(args, t.h)
+			i += 2
+		case strings.HasPrefix(layout[i:], "04"):
+			format += "%02d"
+			args = append(args, t.mi)
+			i += 2
+		case strings.HasPrefix(layout[i:], "05"):
+			format += "%02d"
+			args = append(args, t.s)
+			i += 2
+		default:
+			c := layout[i]
+			if (c >= '0' && c <= '9') || (c >= 'A' && c <= 'Z') || (c >= 'a' && c <= 'z') || c == '%' {
+				panic(unsupported("time.Time.Format layout element not modelled: " + layout[i:]))
+			}
+			format += layout[i : i+1]
+			i++
+		}
+	}
+	return m.sprintf(format, args)
+}
